@@ -35,7 +35,7 @@ TRUSTED = [
 ]
 RULE = (
     "(dialect_name for 5 dialects | 2-3 configure() calls of one EnvironmentContext with mixed dialects and overrides (multidb shape) | mssql/oracle with their batch separator emptied or customised | output_encoding with a binary buffer | live SQLite connection, fresh or already in a transaction) x transactional_ddl override x transaction_per_migration x history x command(upgrade/downgrade/stamp) "
-    "x bodies with 0-2 autocommit blocks; a case is non-trivial when the plan has >=1 step; distinct by "
+    "x bodies with 0-2 autocommit blocks (left normally or through an exception the migration handles); a case is non-trivial when the plan has >=1 step; distinct by "
     "(dialect, override, per_migration, token stream)"
 )
 ASSUMPTIONS = ["env.py has the documented shape: with context.begin_transaction(): context.run_migrations()"]
@@ -107,6 +107,10 @@ def _live_connection(in_txn):
     return conn
 
 
+class _Skip(Exception):
+    pass
+
+
 def run_impl(dialect, override, per_mig, hist, cmd, target, start_rows, bodies, conn_mode=None, dopts=None, prefix=None,
              none_key=False):
     """returns dict(toks, migs(for the model), dropVT, tddl, steps) or dict(err=...).
@@ -127,11 +131,22 @@ def run_impl(dialect, override, per_mig, hist, cmd, target, start_rows, bodies, 
                     for _ in range(k):
                         ctx.execute("SELECT 'MARK_%s_stmt_%d'" % (rev, n))
                         n += 1
-                else:
+                elif kind == "auto":
                     with ctx.autocommit_block():
                         for _ in range(k):
                             ctx.execute("SELECT 'MARK_%s_auto_%d'" % (rev, n))
                             n += 1
+                else:
+                    # an autocommit section left through an exception the migration itself handles
+                    # (`if context.is_offline_mode(): raise Skip()` around a data backfill)
+                    try:
+                        with ctx.autocommit_block():
+                            for _ in range(k):
+                                ctx.execute("SELECT 'MARK_%s_auto_%d'" % (rev, n))
+                                n += 1
+                            raise _Skip()
+                    except _Skip:
+                        pass
 
         return body
 
@@ -222,7 +237,8 @@ def run_impl(dialect, override, per_mig, hist, cmd, target, start_rows, bodies, 
         else:
             rev_index[("stamp_revision", *st.short_log.split(" ", 1)[1].split(" -> "))] = i
             segs = []
-        migs.append({"segs": [{"kind": k, "n": n} for k, n in segs]})
+        # for the framing an autocommit section is one however it is left
+        migs.append({"segs": [{"kind": "auto" if k == "autoraise" else k, "n": n} for k, n in segs]})
     text_out = buf.getvalue().decode(enc) if enc else buf.getvalue()
     toks, unknown = tokenise(text_out, rev_index, seps=tuple(v for k, v in (dopts or {}).items() if v and k != "output_encoding"))
     before = [sorted(start_rows)] + heads_after[:-1]
@@ -248,7 +264,7 @@ def gen_bodies(rng, hist):
         segs = []
         for _ in range(rng.choice([0, 1, 1, 2, 3])):
             if rng.random() < 0.4:
-                segs.append(("auto", rng.choice([0, 1, 1, 2])))
+                segs.append((rng.choice(["auto", "auto", "autoraise"]), rng.choice([0, 1, 1, 2])))
             else:
                 segs.append(("plain", rng.choice([0, 1, 2, 3])))
         bodies[r["id"]] = segs
@@ -311,6 +327,7 @@ def one_case(ctx, dialect, override, per_mig, hist, cmd, target, rows, bodies, p
         return
     ctx.hist("steps", r["nsteps"])
     ctx.hist("auto_sections", sum(1 for m in r["migs"] for s in m["segs"] if s["kind"] == "auto"))
+    ctx.hist("auto_sections_left_by_a_handled_exception", sum(1 for v in bodies.values() for s in v if s[0] == "autoraise"))
     if r["nsteps"] >= 1:
         ctx.nontrivial((dialect, override, per_mig, tuple(r["toks"])))
     pending.append((inp, r))
